@@ -158,7 +158,7 @@ def sub_queue(ctx, st):
     seed = str(ctx.seed)
     # (generator config, capacities, number of simulated behaviours or 0 = exhaustive enumeration)
     plan = ctx.pick([("MC_AdmissionGen_ops2.cfg", "1,2", 0), ("MC_AdmissionGen_ops3c.cfg", "1,2", 0), ("MC_AdmissionGen_sim8.cfg", "2,3", 25)],
-                    [("MC_AdmissionGen_ops3w.cfg", "2", 0), ("MC_AdmissionGen_ops4c.cfg", "1,2,3", 0), ("MC_AdmissionGen_sim12.cfg", "1,2,3", 150)])
+                    [("MC_AdmissionGen_ops3w.cfg", "2", 0), ("MC_AdmissionGen_ops4c.cfg", "1,2", 0), ("MC_AdmissionGen_sim12.cfg", "1,2,3", 150)])
     for i, (cfg, caps, nsim) in enumerate(plan):
         sp = ctx.path("gen_ops%d.ndjson" % i)
         g = gen(st, cfg, sp, simulate=nsim, depth=13)   # every behaviour ends when K operations are reached
@@ -174,11 +174,11 @@ def sub_queue(ctx, st):
 def contact_plan(ctx):
     """Scenarios kind:out:inc:trk:variant (switches of the three Blocklist* config flags; variant = list shape / reload shape)."""
     base = ["static:1:1:1:0", "static:0:0:0:1", "static:1:0:0:2", "static:0:1:0:0", "static:0:0:1:1",
-            "dup:1:1:1:0", "reload:1:1:1:0", "reload:1:0:0:1", "banned:1:1:1:0", "banq:1:1:1:0"]
+            "dup:1:1:1:0", "reload:1:1:1:0", "reload:1:0:0:1", "banned:1:1:1:0", "banq:1:1:1:0", "yourip:1:1:1:0"]
     if ctx.quick():
         return base
     more = ["static:%d:%d:%d:%d" % (o, i, t, v) for o in (0, 1) for i in (0, 1) for t in (0, 1) for v in (0, 1, 2)]
-    more += ["dup:1:1:1:1", "dup:0:0:0:2", "reload:1:1:1:2", "reload:1:1:0:3", "banned:0:0:0:1", "banned:1:1:1:2", "banq:0:0:0:1", "banq:1:1:1:2"]
+    more += ["dup:1:1:1:1", "dup:0:0:0:2", "reload:1:1:1:2", "reload:1:1:0:3", "banned:0:0:0:1", "banned:1:1:1:2", "banq:0:0:0:1", "banq:1:1:1:2", "yourip:0:0:0:1", "yourip:1:1:1:2"]
     return base + more + base[5:]
 
 
@@ -305,6 +305,8 @@ def count_line(ctx, line):
             ctx.oblig("C18.q.pop.nonempty", 1)
     elif '"op":"Reset"' in line:
         ctx.oblig("C18.q.reset", 1)
+    elif '"op":"SetCip"' in line:
+        ctx.oblig("C18.q.setcip", 1)
     elif '"op":"Resolve"' in line:
         ctx.oblig("C18.resolve", 1)
     elif '"op":"Prio"' in line:
@@ -408,9 +410,7 @@ def explain(seg, off, tag):
             what = ("Pop hands %s:%d to the dialer although the loaded rules [%s] block it (%s)"
                     % (ipstr(a["ip"]), a["port"], rtxt, "queued before the reload" if reloaded else "no reload since it was queued"))
         else:
-            sig += " cap=%d bl=%s" % (init["cap"], init["bl"])
-            if e["op"] == "Push":
-                sig += " batch=%d len=%d" % (len(e["addrs"]), e["len"])
+            sig += " bl=%s full=%s" % (init["bl"], e["len"] >= init["cap"])
     # replay material: the whole history if it is short, otherwise from the last accepted Reload on
     # (the blocklist state depends on nothing earlier; long histories only occur in blocklist traces)
     h = hist
@@ -508,18 +508,24 @@ def queue_situations(ctx, st):
     if not tr:
         return
     sit = {"push_at_capacity": 0, "push_with_port0": 0, "push_with_self": 0, "push_with_blocked": 0, "push_equal_priority": 0,
-           "push_same_addr_twice": 0, "pop_after_reload": 0, "source_change": 0, "eviction": 0}
-    init, rules, prevq, reloaded = None, [], [], False
+           "push_same_addr_twice": 0, "pop_after_reload": 0, "source_change": 0, "eviction": 0,
+           "client_address_changes": 0, "push_with_self_after_change": 0, "pop_own_address_queued_before_change": 0}
+    init, rules, prevq, reloaded, moved = None, [], [], False, False
     for line in open(tr["path"]):
         e = json.loads(line)
         op = e["op"]
         if op == "Init":
-            init, rules, prevq, reloaded = e, [], [], False
+            init, rules, prevq, reloaded, moved = e, [], [], False, False
             continue
         if op == "Reload":
             if not e["err"]:
                 rules = [rng_of(l) for l in e["lines"] if l["k"] == "cidr"]
             reloaded = True
+            continue
+        if op == "SetCip":
+            init = dict(init, cip=e["cip"], pool=[dict(a, prio=pr) for a, pr in zip(init["pool"], e["prios"])])
+            moved = True
+            sit["client_address_changes"] += 1
             continue
         if op not in ("Push", "Pop", "Reset"):
             continue
@@ -533,6 +539,8 @@ def queue_situations(ctx, st):
                 sit["push_with_port0"] += 1
             if any(a["port"] == init["port"] and (a["ip"] == init["cip"] or a["ip"][0] >> 8 == 127) for a in b):
                 sit["push_with_self"] += 1
+                if moved and any(a["port"] == init["port"] and a["ip"] == init["cip"] for a in b):
+                    sit["push_with_self_after_change"] += 1
             if init["bl"] and any(f <= v <= t for v in vals for f, t in rules):
                 sit["push_with_blocked"] += 1
             pr = [tuple(a["prio"]) for a in b] + [tuple(pool[x[0] - 1]["prio"]) for x in prevq]
@@ -550,6 +558,9 @@ def queue_situations(ctx, st):
                 sit["eviction"] += 1
         if op == "Pop" and reloaded and e["r"]:
             sit["pop_after_reload"] += 1
+        # observation, not judged: an address queued before the client learned that it is its own is handed out
+        if op == "Pop" and e["r"] and pool[e["r"] - 1]["port"] == init["port"] and pool[e["r"] - 1]["ip"] == init["cip"]:
+            sit["pop_own_address_queued_before_change"] += 1
         prevq = e["q"]
     ctx.extra["queue_situations_in_random_histories"] = sit
     for k, v in sit.items():
@@ -600,6 +611,7 @@ def run(ctx):
     ctx.assumptions += [
         "the BEP 40 priority function is taken as given (checked only against the BEP 40 examples and for symmetry); priorities are computed by the real peerpriority.Calculate",
         "queue content is read through an overlay-only read-only shim (VerifDump) of internal/addrlist",
+        "the client address the list refers to may change between operations (SetCip): the own-address filter and the priority of later pushes follow the current value; queued elements keep their priority; the same ip:port may then be queued under its old and its new priority; an own address queued BEFORE the change and popped after it is only counted (queue_situations), not judged",
         "which element is evicted from a full queue and what happens to two different addresses of equal priority is left open (the code evicts the oldest; the newer equal-priority address replaces the older)",
         "any address of a network denotes the network (host bits are masked, as blocklist_test.go expects); lines that are not a.b.c.d/n with 0<=n<=32 are malformed; IPv6 lines/queries are recorded, not judged",
         "session-level contact obligations (real sockets) are a separate sub-check",
